@@ -271,10 +271,12 @@ def macro_cases(start):
     argsets = [("{} {} {}", "2 * $e, $e2 - $e, -$e2"), ("{0} {v}", "$e2 * $e, v = 10 - $e2"), ("{}", "$e"), ("{a:>6} {0}", "($e2, 3 * $e).1, a = [1 - $e][0]"),
                ("{} {}", "f(2 * $e, $e2), 1 + $e2 * 2"),
                # fragments that are no expressions inside a block argument: a statement and an item stay what they are
-               ("{}", "{ $s; 2 * $e }"), ("{} {}", "{ $i 2 * $e }, { $s; $e2 - 1 }")]
+               ("{}", "{ $s; 2 * $e }"), ("{} {}", "{ $i 2 * $e }, { $s; $e2 - 1 }"),
+               # a fragment in postfix position: a method call binds tighter than the fragment's own prefix operator
+               ("{} {}", "$e.abs(), $e2.pow(2)"), ("{}", "($e2.count_ones(), $e.signum()).1")]
     for derive, (attr, ph) in TRAITS.items():
       # (fragments with field references and operators; fragments that are nothing but paths joined by `+` - which also read as a type)
-      for frags in (("*x + 1", "*y - *x"), ("K1 + K2", "self::K2 + K1 + K1")):
+      for frags in (("*x + 1", "*y - *x"), ("K1 + K2", "self::K2 + K1 + K1"), ("-K1", "!K2")):     # (.. and two-token fragments: a prefix operator and its operand)
         for lit, args in argsets:
               for shape in ("struct", "enum"):
                   if shape == "struct":
